@@ -21,12 +21,12 @@ RULE = ("seeded systems (1-3 molecule types, chains/trees/rings of 1-8 residues 
 ASSUMPTIONS = ["residue sizes are read from the captured topology.volumes (independent of the engine's interaction table)",
                "inside the box is tested as 0 <= x <= L (x % L may return L for x = -eps)",
                "overlap / force are checked against the residues positioned at the time of acceptance"]
-CASE_TIMEOUT = 240
+CASE_TIMEOUT = 90
 WALL = {"quick": 1200, "thorough": 10800}
 MAX_TIMEOUTS = {"quick": 1, "thorough": 20}
 REQUIRED = {"placements_checked": 1500, "placements_wrapped": 150, "start_on_grid_checked": 150,
             "placements_with_force": 100, "rejected_trials": 50, "noncubic_runs": 10, "user_grid_runs": 5,
-            "density_runs": 5, "ring_closures": 500}
+            "density_runs": 5, "ring_closures": 500, "systems_with_tree_consolidation": 15}
 
 
 def plan(tier, seed):
@@ -49,7 +49,9 @@ def run_case(cid, rng, workdir):
         sysd["molecules"] = [(sysd["moltypes"][0]["name"], rng.randint(8, 14))]
         bump(res, "ring_closures", sysd["molecules"][0][1])
     else:
-        sysd = T.gen_system(rng, max_types=2 if edge else 3, max_res=6 if edge else 8, max_count=2 if edge else 3)
+        sysd = T.gen_system(rng, max_types=2 if edge else 3, max_res=6 if edge else rng.choice([8, 8, 16]), max_count=2 if edge else 3)
+        if any(len(mt["res"]) > 10 for mt in T.expand(sysd)):
+            bump(res, "systems_with_tree_consolidation")
     text = T.render_top(sysd)
     with open(os.path.join(workdir, "s.top"), "w") as fh:
         fh.write(text)
@@ -57,6 +59,10 @@ def run_case(cid, rng, workdir):
     opts = {}
     mode = rng.choice(["box", "box", "noncubic", "density", "grid"]) if not edge else rng.choice(["box", "noncubic"])
     lo, hi = (2.4, 3.2) if edge else (3.5, 6.5)
+    if not edge and cid[0] != "ring":
+        # keep the occupancy low enough for the walk to terminate (a system that cannot be packed is retried forever)
+        need = (nres * 0.9) ** (1.0 / 3.0)
+        lo, hi = max(lo, need), max(hi, need + 1.0)
     if mode == "density":
         # the box must stay larger than two steps, otherwise "one step under minimum image" is not defined and a
         # handful of residues cannot be placed at all (the builder then retries forever)
@@ -77,6 +83,12 @@ def run_case(cid, rng, workdir):
             bump(res, "user_grid_runs")
     opts["step_fudge"] = rng.choice([0.7, 0.8, 1.0, 1.0, 1.2])
     opts["max_force"] = rng.choice([1e2, 1e3, 5e3, 5e4])
+    # a low force limit with shortened steps (the second neighbour then sits inside the repulsive core) or with long
+    # chains makes the walk practically non-terminating: keep the workload satisfiable
+    if opts["max_force"] <= 1e2 and opts["step_fudge"] < 1.0:
+        opts["step_fudge"] = 1.0
+    if any(len(mt["res"]) > 10 for mt in T.expand(sysd)):
+        opts["max_force"] = max(opts["max_force"], 5e3)
     opts["grid_spacing"] = rng.choice([0.2, 0.3, 0.5])
     opts["nrewind"] = rng.choice([1, 3, 5])
     run, ctx = CC.run_gen_coords(toppath=Path(workdir) / "s.top", outpath=Path(workdir) / "o.gro", name="x", **opts)
